@@ -183,7 +183,7 @@ def run_driver_sharded(proto, chk, op_lines, shards=None):
     for t in ths:
         t.join()
     out = []
-    tot = {"ops": 0, "misM": 0, "misS": 0, "skipS": 0}
+    tot = {"ops": 0, "misM": 0, "misS": 0, "skipS": 0, "opsA": 0, "misA": 0}
     for i in range(n):
         if procs[i].returncode != 0:
             raise RuntimeError("driver failed: " + outs[i][1][-2000:])
@@ -196,16 +196,18 @@ def run_driver_sharded(proto, chk, op_lines, shards=None):
                 out.append(l)
     # (the declaration lines are answered by every shard; callers only look at mismatch / bad-op lines)
     log("driver x%d %.1fs ops=%d" % (n, time.time() - t0, len(op_lines)))
-    return out, "stats ops=%d misM=%d misS=%d skipS=%d" % (tot["ops"], tot["misM"], tot["misS"], tot["skipS"])
+    return out, "stats ops=%d misM=%d misS=%d skipS=%d opsA=%d misA=%d" % (tot["ops"], tot["misM"], tot["misS"], tot["skipS"], tot["opsA"], tot["misA"])
 
 
 def pick_mismatches(out, cap):
     """disagreements with the reference semantics (concrete failing inputs) first, then disagreements with the model and
     uninterpretable operations; each group capped, spread over the declarations, duplicates removed"""
-    groups = {"S": {}, "M": {}, "B": {}}
+    groups = {"S": {}, "M": {}, "B": {}, "A": {}}
     for l in out:
         if l.startswith("mismatch S "):
             g = "S"
+        elif l.startswith("mismatch A "):
+            g = "A"
         elif l.startswith("mismatch M "):
             g = "M"
         elif l.startswith("bad-op"):
@@ -217,7 +219,7 @@ def pick_mismatches(out, cap):
         m = re.search(r"(?::: |bad-op )op (\S+) (\S+)", l)
         groups[g].setdefault((m.group(1), m.group(2)) if m else ("", ""), {})[l] = None
     res = []
-    for g, share in (("S", cap // 2), ("M", cap // 3), ("B", cap - cap // 2 - cap // 3)):
+    for g, share in (("S", cap // 2), ("M", cap // 3), ("B", cap - cap // 2 - cap // 3), ("A", max(50, cap // 20))):
         per = [list(v) for v in groups[g].values()]
         # round-robin over the declarations so that every affected declaration is represented
         k = 0
@@ -544,6 +546,8 @@ def _build_and_run(tier, seed, profiles, decls_override=None):
 
     # ---- AST comparison: the bodies of the real expansion, translated, against the bodies the model generates ----------
     ast = {"equal": 0, "differ": [], "untranslatable": [], "compared_decls": 0}
+    nf_all = os.environ.get("VERIF_NF_ALL", "1") == "1"
+    nf_todo = []          # (declaration, item, full S-expression of the emitted body, was AST-equal)
     for name, text in dump_texts.items():
         d = table[name]
         mb = model.get(name, {}).get("bodies")
@@ -571,8 +575,46 @@ def _build_and_run(tier, seed, profiles, decls_override=None):
                 ast["untranslatable"].append([name, item, rsx[:300]])
             elif rustexpr.compare(rsx, msx):
                 ast["equal"] += 1
+                if nf_all:
+                    nf_todo.append((name, item, rsx, True))
             else:
                 ast["differ"].append([name, item, rsx[:600], msx[:600]])
+                nf_todo.append((name, item, rsx, False))
+
+    # ---- translation validation by normal form (Lean: Nf.bodiesEquiv, proved sound in Symbolic/NfSound.lean) ----------
+    # Bodies that are not syntactically the model's are normalised together with the model's body; `equal` means they
+    # evaluate alike for every raw value, written value, index and both profiles (theorem bodiesEquiv_sound), so the
+    # accessor theorems hold for the emitted body (Props/TV.lean). Such a body is taken out of the `differ` list; it is
+    # additionally evaluated on every probe operation (`A` results, compared with the real results by the driver).
+    nf = {"asked": len(nf_todo), "equal": 0, "differ": [], "unknown": [], "untranslatable": [], "equal_items": [],
+          "all_bodies": nf_all, "ast_equal_but_not_nf_equal": []}
+    nf_lines = []
+    if nf_todo:
+        def flat(sx):
+            return " ".join(rustexpr.normalise(sx).split())
+        nf_lines = ["nfcmp %s %s %s" % (n, it, flat(sx)) for (n, it, sx, _) in nf_todo]
+        was_equal = {(n, it): eq for (n, it, _, eq) in nf_todo}
+        for line in run_driver(proto + nf_lines):
+            w = line.split(" ")
+            if w[0] != "nfres":
+                continue
+            key = (w[1], w[2])
+            verdict = w[3]
+            if verdict == "equal":
+                nf["equal"] += 1
+                if not was_equal.get(key):
+                    nf["equal_items"].append([w[1], w[2]])
+            else:
+                nf.setdefault(verdict, []).append([w[1], w[2]])
+                if was_equal.get(key) and verdict in ("differ", "untranslatable", "noitem", "nodecl"):
+                    nf["ast_equal_but_not_nf_equal"].append([w[1], w[2], verdict])
+        validated = {(a, b) for a, b in nf["equal_items"]}
+        ast["nf_validated"] = [x for x in ast["differ"] if (x[0], x[1]) in validated][:300]
+        ast["differ"] = [x for x in ast["differ"] if (x[0], x[1]) not in validated]
+        # only the bodies that differ syntactically are registered for the `A` evaluation of the operations
+        nf_lines = [l for l, (n, it, _, eq) in zip(nf_lines, nf_todo) if not eq]
+    ast["nf"] = {k: (v if not isinstance(v, list) else v[:300]) for k, v in nf.items()}
+    ast["nf"]["validated_count"] = len(nf["equal_items"])
     ast["differ_count"] = len(ast["differ"])
     ast["untranslatable_count"] = len(ast["untranslatable"])
     ast["differ"] = ast["differ"][:300]
@@ -730,7 +772,7 @@ def _build_and_run(tier, seed, profiles, decls_override=None):
         op_lines = text.splitlines()
         flags[prof] = [l for l in op_lines if not l.startswith("op ") and not l.startswith("CONST-OK")][:500]
         const_ok = sum(1 for l in op_lines if l.startswith("CONST-OK"))
-        out, stat_line = run_driver_sharded(proto, 1 if prof == "dev" else 0, [l for l in op_lines if l.startswith("op ")])
+        out, stat_line = run_driver_sharded(proto + nf_lines, 1 if prof == "dev" else 0, [l for l in op_lines if l.startswith("op ")])
         mismatches[prof] = pick_mismatches(out, 5000)
         stats[prof] = stat_line
         cnt = {}
@@ -769,7 +811,7 @@ def _build_and_run(tier, seed, profiles, decls_override=None):
         if rp.returncode == 0:
             with open(out_path) as f:
                 op_lines = [l for l in f.read().splitlines() if l.startswith("op ")]
-            out = run_driver(proto + ["profile chk=1"] + op_lines + ["stats"])
+            out = run_driver(proto + nf_lines + ["profile chk=1"] + op_lines + ["stats"])
             focus = {"declarations": suspects, "ops": len(op_lines),
                      "mismatches": pick_mismatches(out, 1000)}
     timing["focus_s"] = time.time() - t0
